@@ -584,3 +584,27 @@ Theorem C02_noerror_only_guard_refuted :
   filter_response_with a b guard_noerror_only c st ex_nx_answer = Delivered ex_nx_answer.
 Proof. exact noerror_only_guard_refuted. Qed.
 Print Assumptions C02_noerror_only_guard_refuted.
+
+(** * Round 8: "filtering off" is what the requests read.  The global
+    filtering flag is published to the requests by enableFiltersLocked alone
+    (Model/FilterSwitch.v, shared with C01): once POST /control/filtering/config
+    has returned, the flag the requests read is the one it set. *)
+From AGH Require Import Model.PipelineLists Model.FilterQueue Model.FilterSwitch Proofs.FilterSwitch.
+
+Theorem C02_switch_in_force_after_config :
+  forall g en rest,
+  Forall (fun o => match o with GConfig _ => False | GOp _ => True end) rest ->
+  g_on (grun gate_as_written config_always g (GConfig en :: rest)) = en.
+Proof. exact switch_in_force_after_config. Qed.
+Print Assumptions C02_switch_in_force_after_config.
+
+(** The seeded handler (C02-P: the rebuild, and with it the publication, only
+    when enabling): switched off, the requests still read on, so answers keep
+    being response-filtered. *)
+Theorem C02_publish_only_when_enabling_refuted :
+  exists g, g_on g = g_conf g /\
+    g_on (grun gate_as_written config_only_when_enabling g [GConfig false]) = true /\
+    g_conf (grun gate_as_written config_only_when_enabling g [GConfig false]) = false /\
+    g_on (grun gate_as_written config_always g [GConfig false]) = false.
+Proof. exact publish_only_when_enabling_refuted. Qed.
+Print Assumptions C02_publish_only_when_enabling_refuted.
